@@ -73,6 +73,8 @@ FIXED = [
  ('C04', "medit reader honours 'Dimension 2'", "a medit file with 'Dimension 2' had its vertex reference read as the z coordinate"),
  ('C03', 'volume edge adjacency skips face sides absent from the edge list', 'on a volume mesh without a complete edge list (config.complete_edges_from_faces=False) the first edge query raised KeyError and later ones answered from the half-built tables (answers depended on the query order)'),
  ('C03', 'boundary connectivity of a volume maps the border edges when config.complete_edges_from_faces is off', 'with config.complete_edges_from_faces=False the border surface of enable_boundary_connectivity had no edges: every border edge was mapped to None and the edge maps were not mutually inverse'),
+ ("C07", "intersect_2lines2D tests parallelism relative to the direction lengths", "geometry.circumcenter / attributes.face_circumcenter raised AttributeError on non-degenerate triangles with edge lengths around 1e-6 (absolute 1e-12 parallelism threshold on a quantity in length^2 in intersect_2lines2D)"),
+ ("C06", "translate by one of the mesh's own vertices", "transform.translate(mesh, mesh.vertices[i]) moved the vertices after i by twice the vector (in-place += on the vector itself once its own vertex was reached)"),
  ("C02", "edge attributes survive the removal of invalid edges", "dropping an invalid edge lost the values of dense edge attributes (ValueError for vector ones) and the custom default of sparse ones"),
  ("C02", "cell/face connectivity works when cells are numpy rows", "face_to_cells / cell_to_face / in_cell_face_index raised ValueError on volume meshes whose cells are numpy rows (from_arrays)"),
  ("C16", "singularity cutter reaches every face", "SingularityCutter with a feature detector and >= 1 singularity: faces enclosed by forbidden feature edges were never reached by the dual search and the cut mesh fell apart into several components"),
